@@ -345,6 +345,9 @@ type replayStream struct {
 
 func NewStream() io.ReadWriteCloser { return &replayStream{} }
 
+// KVStorm has no native counterpart (real conflicts need real concurrent writers).
+func KVStorm(n int) {}
+
 // StreamHistory has no native counterpart (the history is not materialised).
 func StreamHistory(rwc io.ReadWriteCloser) {}
 
